@@ -223,6 +223,12 @@ def make_server_factory(resp_by_nonce: Dict[str, dict], sent: Dict[str, tuple], 
                 if ra is not None:
                     headers["retry-after"] = ra
             seen_before[cap.nonce] = seen_before.get(cap.nonce, 0) + 1
+            if spec.get("redirect"):
+                if seen_before[cap.nonce] == 1:
+                    return spec["redirect"], {"location": cap.url + ("&" if "?" in cap.url else "?") + "hop=1"}, b""
+                seen_before[cap.nonce] -= 1       # the replayed POST is the request this call's scripted answer is for
+                spec = dict(spec, redirect=None)
+                resp_by_nonce[cap.nonce] = spec
             if seen_before[cap.nonce] > 1:
                 # the same call asks again (a client that retries on its own): this time the server is fine - the call's outcome
                 # must still be the one of the FIRST response, which is the response this check scripted for it
@@ -266,6 +272,7 @@ def draw_case(case, ch: Choices):
     cfg["lat_profile"] = ch.draw("cfg.latp", 3)
     cfg["preempt_den"] = ch.pick("cfg.pden", [1, 3, 9])
     cfg["debug_logging"] = ch.chance("cfg.debug_logging", 1, 4)
+    cfg["user_warnings_as_errors"] = ch.chance("cfg.user_warnings_as_errors", 1, 4)
     calls = []
     if p.get("mode") == "enum":
         status = p["status"]
@@ -293,6 +300,11 @@ def draw_case(case, ch: Choices):
             calls.append(s)
     callers: List[List[dict]] = [[] for _ in range(ncallers)]
     for i, s in enumerate(calls):
+        # some callers ask httpx to follow redirects, and the endpoint first answers 307/308 with a Location (the POST is
+        # replayed there unchanged): the response to classify is the final one
+        if s["via"] != "custom_query" and ch.chance("resp.redirect_first", 1, 10):
+            s["kw"] = dict(s["kw"], follow_redirects=True)
+            s["resp"] = dict(s["resp"], redirect=[307, 308][ch.draw("resp.redirect_code", 2)])
         callers[i % ncallers].append(s)
     cfg["callers"] = [c for c in callers if c]
     return cfg
